@@ -15,6 +15,9 @@ import (
 	"fmt"
 	"math/big"
 	"math/rand"
+	"sort"
+	"strconv"
+	"unicode/utf16"
 
 	"github.com/btcsuite/btcd/btcec/v2"
 )
@@ -25,18 +28,107 @@ var B64 = base64.RawURLEncoding
 
 func B64E(b []byte) string { return B64.EncodeToString(b) }
 
-// Canon is JCS for values the harness builds itself: maps with ASCII names, strings,
-// integers, arrays. encoding/json sorts map keys bytewise (== UTF-16 order for the BMP
-// names used here) and writes compactly; HTML escaping is switched off.
-// U+2028/2029 are never used in harness-built structures.
+// Canon is the harness's own RFC 8785 serializer for the values it builds: maps, slices,
+// strings, booleans, nil and integers (no fractional numbers). Member names are sorted by
+// UTF-16 code units; strings get the minimal escaping. It shares no code with the library.
 func Canon(v interface{}) []byte {
 	var buf bytes.Buffer
-	enc := json.NewEncoder(&buf)
-	enc.SetEscapeHTML(false)
-	if err := enc.Encode(v); err != nil {
-		panic(err)
+	canonWrite(&buf, v)
+	return buf.Bytes()
+}
+
+func canonString(buf *bytes.Buffer, s string) {
+	buf.WriteByte('"')
+	for _, c := range s {
+		switch {
+		case c == '"':
+			buf.WriteString("\\\"")
+		case c == '\\':
+			buf.WriteString("\\\\")
+		case c == 8:
+			buf.WriteString("\\b")
+		case c == 12:
+			buf.WriteString("\\f")
+		case c == 10:
+			buf.WriteString("\\n")
+		case c == 13:
+			buf.WriteString("\\r")
+		case c == 9:
+			buf.WriteString("\\t")
+		case c < 0x20:
+			fmt.Fprintf(buf, "\\u%04x", c)
+		default:
+			buf.WriteRune(c)
+		}
 	}
-	return bytes.TrimRight(buf.Bytes(), "\n")
+	buf.WriteByte('"')
+}
+
+func utf16Less(a, b string) bool {
+	x, y := utf16.Encode([]rune(a)), utf16.Encode([]rune(b))
+	for i := 0; i < len(x) && i < len(y); i++ {
+		if x[i] != y[i] {
+			return x[i] < y[i]
+		}
+	}
+	return len(x) < len(y)
+}
+
+func canonWrite(buf *bytes.Buffer, v interface{}) {
+	switch t := v.(type) {
+	case nil:
+		buf.WriteString("null")
+	case bool:
+		if t {
+			buf.WriteString("true")
+		} else {
+			buf.WriteString("false")
+		}
+	case string:
+		canonString(buf, t)
+	case int:
+		buf.WriteString(strconv.FormatInt(int64(t), 10))
+	case int64:
+		buf.WriteString(strconv.FormatInt(t, 10))
+	case uint64:
+		buf.WriteString(strconv.FormatUint(t, 10))
+	case []interface{}:
+		buf.WriteByte('[')
+		for i, e := range t {
+			if i > 0 {
+				buf.WriteByte(',')
+			}
+			canonWrite(buf, e)
+		}
+		buf.WriteByte(']')
+	case []string:
+		buf.WriteByte('[')
+		for i, e := range t {
+			if i > 0 {
+				buf.WriteByte(',')
+			}
+			canonString(buf, e)
+		}
+		buf.WriteByte(']')
+	case map[string]interface{}:
+		keys := make([]string, 0, len(t))
+		for k := range t {
+			keys = append(keys, k)
+		}
+		sort.Slice(keys, func(i, j int) bool { return utf16Less(keys[i], keys[j]) })
+		buf.WriteByte('{')
+		for i, k := range keys {
+			if i > 0 {
+				buf.WriteByte(',')
+			}
+			canonString(buf, k)
+			buf.WriteByte(':')
+			canonWrite(buf, t[k])
+		}
+		buf.WriteByte('}')
+	default:
+		panic(fmt.Sprintf("opb.Canon: unsupported type %T", v))
+	}
 }
 
 func varint(x uint64) []byte {
